@@ -13,9 +13,9 @@ use std::str::FromStr;
 
 pub fn meta() -> Meta {
     Meta {
-        rule: "events = (a) for one epoch with calendar year 1..9999 in any of the nine scales: Display -> Epoch::from_str, Formatter(ISO8601) -> from_str, to_gregorian_str(own) -> from_gregorian_str, serde_json to_string -> from_str, and for UTC epochs to_rfc3339 -> from_str; (b) harness-built ISO 8601 / RFC 3339 texts (M-TEXT) with k in 0..9 fractional digits, 'T' or ' ' separator, none | Z | +-hh:mm offset (all of -23:59..+23:59 enumerated) and optional scale suffix -> from_str / from_gregorian_str; (c) numeric forms `JD|MJD|SEC x SCALE` in the uniform scales and UTC. Expected: (a) identical scale and parts; (b) parts == count of the fields in the scale (UTC when none) minus the offset, exactly; (c) |parsed - denoted| <= 1.5 ulp of the f64 magnitude in that unit + 1 ns, where JD/MJD count days from their origin on the scale's own calendar and SEC counts seconds from the scale's zero. Generation: epochs as C09 (lattice incl. leap seconds, random ns instants), all 2879 offsets x random base, all k, numeric values over +-10000 y. Non-trivial = non-zero fractional part, offset present, scale other than UTC, year < 1900 or > 3408, numeric form in a GNSS scale; distinct = distinct text hashes among those.",
+        rule: "events = (a) for one epoch in any of the nine scales (calendar years -30000..30000, nine tenths of them in 1..9999): Display -> Epoch::from_str, Formatter(ISO8601) -> from_str, to_gregorian_str(own) -> from_gregorian_str, serde_json to_string -> from_str, and for UTC epochs to_rfc3339 -> from_str; (b) harness-built ISO 8601 / RFC 3339 texts (M-TEXT) with k in 0..9 fractional digits, 'T' or ' ' separator, none | Z | +-hh:mm offset (all of -23:59..+23:59 enumerated) and optional scale suffix -> from_str / from_gregorian_str; (c) numeric forms `JD|MJD|SEC x SCALE` in the uniform scales and UTC. Expected: (a) identical scale and parts; (b) parts == count of the fields in the scale (UTC when none) minus the offset, exactly; (c) |parsed - denoted| <= 1.5 ulp of the f64 magnitude in that unit + 1 ns, where JD/MJD count days from their origin on the scale's own calendar and SEC counts seconds from the scale's zero. Generation: epochs as C09 (lattice incl. leap seconds, random ns instants), all 2879 offsets x random base, all k, numeric values over +-10000 y and within one unit of zero / of the form's origin, both signs. Non-trivial = non-zero fractional part, offset present, scale other than UTC, year < 1900 or > 3408, numeric form in a GNSS scale; distinct = distinct text hashes among those.",
         assumptions: &["M-TEXT grammar as documented (rustdoc of from_gregorian_str / from_str)", "JD in ET/TDB excluded (documented approximate)"],
-        mandatory: &["rt/display", "rt/iso-formatter", "rt/gregorian-str", "rt/serde", "rt/rfc3339", "text/offset", "text/zulu", "text/frac-0", "text/frac-9", "text/frac-1..8", "text/scale-suffix", "text/space-separator", "num/JD", "num/MJD", "num/SEC", "num/gnss-scale"],
+        mandatory: &["rt/display", "rt/iso-formatter", "rt/gregorian-str", "rt/serde", "rt/rfc3339", "text/offset", "text/zulu", "text/frac-0", "text/frac-9", "text/frac-1..8", "text/scale-suffix", "text/space-separator", "num/JD", "num/MJD", "num/SEC", "num/gnss-scale", "num/negative-fraction", "rt/year-below-1", "rt/year-above-9999"],
         thorough_scale: 40,
         exhaustive_part: "all 2879 offsets -23:59..+23:59 x {with, without fraction}; all k = 0..9; numeric forms x 7 scales",
     }
@@ -243,6 +243,40 @@ pub fn run(cfg: &Cfg, rep: &mut Rep) {
                 _ => x,
             };
             check_numeric(rep, form, x, s2);
+        }
+        if k % 8 == 0 {
+            // values closer to zero than one unit, both signs (the sign must survive a zero integer part), and
+            // values a fraction of a unit either side of the form's own origin
+            let form = *r.pick(&["JD", "MJD", "SEC"]);
+            let s2 = *r.pick(&NUM_SCALES);
+            let mag = match r.below(5) {
+                0 => 0.5,
+                1 => 0.25,
+                2 => 1e-9,
+                3 => 0.999999999,
+                _ => (r.f64_unit() * 1e9).round() / 1e9,
+            };
+            let x = if r.bool() { -mag } else { mag };
+            rep.class(if x < 0.0 { "num/negative-fraction" } else { "num/positive-fraction" });
+            if form == "SEC" || r.bool() {
+                check_numeric(rep, form, x, s2);
+            } else {
+                let origin: f64 = if form == "JD" { 2_415_020.5 } else { 15_020.0 };
+                check_numeric(rep, form, origin + x, s2);
+            }
+        }
+        if k % 10 == 0 {
+            // text round trip of epochs before year 1 and after year 9999 (the text carries a sign / a fifth digit)
+            let (y0, y1) = if r.bool() { (-30000, 0) } else { (10000, 30000) };
+            let (lo, hi) = gen::reading_range(s, y0, y1);
+            let c = match r.below(4) {
+                0 => lo + r.range_i128(0, 400 * NS_D),
+                1 => hi - r.range_i128(0, 400 * NS_D),
+                2 => (r.range_i128(lo, hi) / NS_D) * NS_D,
+                _ => r.range_i128(lo, hi),
+            };
+            rep.class(if y0 < 0 { "rt/year-below-1" } else { "rt/year-above-9999" });
+            check_roundtrip(rep, c, s);
         }
     }
 }
